@@ -455,10 +455,28 @@ func inflate(f *type1.Font, wantEexec int, bigClear bool, salt int) {
 	}
 }
 
+// longGlyphFont is the base font plus one glyph of n segments.
+func longGlyphFont(n int) *type1.Font {
+	f := baseFont()
+	g := &type1.Glyph{WidthX: 600}
+	g.MoveTo(10, 10)
+	for k := 0; k < n; k++ {
+		switch k % 5 {
+		case 4:
+			g.CurveTo(float64(100+(k*7)%900), float64((k*13)%1100), float64(200+(k*3)%700), float64(50+(k*17)%1000), float64((k*29)%1300), float64(100+(k*11)%900))
+		default:
+			g.LineTo(float64(200+(k*37)%1300), float64(-150+(k*91)%1700))
+		}
+	}
+	g.ClosePath()
+	f.Glyphs["longglyph"] = g
+	return f
+}
+
 func TestP2Large(t *testing.T) {
 	rec := ev.New("C08", "large")
 	defer rec.Finish(t)
-	rec.Rule("large fonts: a generated font inflated with filler glyphs so that the encrypted portion is 60,000-70,000, about 131,072 or about 200,000 bytes (segment and Length values that need the third length byte), half of them with a 67,600-byte Notice so that the clear-text portion passes 65,536 bytes too; thorough tier, shard 0: one font whose encrypted portion exceeds 2^24 bytes (fourth length byte). Same oracle as the decode part, x 5 forms. Every case is non-trivial; distinct by font content and form.")
+	rec.Rule("large fonts: a generated font inflated with filler glyphs so that the encrypted portion is 60,000-70,000, about 131,072 or about 200,000 bytes (segment and Length values that need the third length byte), half of them with a 67,600-byte Notice so that the clear-text portion passes 65,536 bytes too; thorough tier, shard 0: one font whose encrypted portion exceeds 2^24 bytes (fourth length byte). Plus fonts with one glyph of 600-12000 segments (a single charstring of 3-60 kB). Same oracle as the decode part, x 5 forms. Every case is non-trivial; distinct by font content and form.")
 	var opts t1gen.FontOpts
 	opts.NoOperatorNames, opts.NoNewlineVersion, opts.NoStdEncHoles, opts.NoOddZones = true, true, true, true
 	opts.MaxGlyphs = 4
@@ -491,6 +509,22 @@ func TestP2Large(t *testing.T) {
 			rec.Fail(t, msg, c)
 		}
 	})
+	// single long charstrings: one glyph of 600-12000 segments (charstring of
+	// about 3-60 kB, each written as one piece through the encrypting and
+	// hex-armouring layers), sizes spread over the shards
+	{
+		shard, nshards := ev.Shard()
+		sizes := []int{600, 900, 1100, 1500, 2300, 3000, 4200, 5000, 7000, 9000, 12000}
+		for i, n := range sizes {
+			if i%nshards != shard {
+				continue
+			}
+			f := longGlyphFont(n)
+			if msg, c := run(f, fmt.Sprintf("charstring-of-%d-segments", n)); msg != "" {
+				rec.Violation(false, msg, map[string]any{"long_glyph_segments": n, "form": c.Form})
+			}
+		}
+	}
 	if shard, _ := ev.Shard(); ev.Thorough() && shard == 0 {
 		f := baseFont()
 		inflate(f, 17_000_000, false, 0)
@@ -511,10 +545,13 @@ func TestReplay(t *testing.T) {
 	}
 	var big struct {
 		LargeEexec int `json:"large_eexec"`
+		LongGlyph  int `json:"long_glyph_segments"`
 		Form       int `json:"form"`
 	}
 	var c c08case
-	if json.Unmarshal(rc.Case, &big) == nil && big.LargeEexec > 0 {
+	if json.Unmarshal(rc.Case, &big) == nil && big.LongGlyph > 0 {
+		c.Font, c.Form = longGlyphFont(big.LongGlyph), big.Form
+	} else if json.Unmarshal(rc.Case, &big) == nil && big.LargeEexec > 0 {
 		c.Font, c.Form = baseFont(), big.Form
 		inflate(c.Font, big.LargeEexec, false, 0)
 	} else if err := json.Unmarshal(rc.Case, &c); err != nil {
